@@ -20,7 +20,7 @@ import (
 // C20 — listener bandwidth limits bound throughput per direction without altering data.
 
 type c20Conn struct {
-	Kind  string `json:"kind"` // download | upload | tunnel-down | tunnel-up | download-chunked | trickle-up | swarm-down
+	Kind  string `json:"kind"` // download | upload | tunnel-down | tunnel-up | tunnel-duplex | download-chunked | trickle-up | swarm-down
 	Bytes int    `json:"bytes"`
 	Count int    `json:"count,omitempty"` // swarm-down: that many short connections, one after the other, Bytes each
 }
@@ -79,6 +79,19 @@ func genC20(t *tape.Tape, tier string) any {
 		// so the other direction's limiter cannot pace the requests.
 		c.ReadLimit, c.WriteLimit = []int{1 << 20, 4 << 20, 16 << 20}[t.Intn(3)], 0
 		c.Conns = []c20Conn{{Kind: "swarm-down", Bytes: 30000 + t.Intn(30000), Count: 300 + t.Intn(150)}}
+		c.WOne = 0
+		c.WRand = t.Pick(3, 2) * 2
+		return c
+	}
+	if t.Chance(1, 8) {
+		// one tunnel carrying bulk data both ways at once, one direction limited: the other one must not notice
+		rate := []int{256 << 10, 1 << 20, 4 << 20}[t.Intn(3)]
+		c.ReadLimit, c.WriteLimit = rate, 0
+		if t.Chance(1, 2) {
+			c.ReadLimit, c.WriteLimit = 0, rate
+		}
+		c.Conns = []c20Conn{{Kind: "tunnel-duplex", Bytes: 6<<20 + t.Intn(4<<20)}}
+		c.PP = t.Chance(1, 4)
 		c.WOne = 0
 		c.WRand = t.Pick(3, 2) * 2
 		return c
@@ -205,6 +218,10 @@ func runC20(env *core.Env, ci any) {
 			}
 		}
 	})
+	dupDone := make([]chan struct{}, len(c.Conns)) // tunnel-duplex: the target has received everything and sent everything
+	for i := range dupDone {
+		dupDone[i] = make(chan struct{})
+	}
 	// tunnel target on port 7000+i
 	for i, cn := range c.Conns {
 		if !strings.HasPrefix(cn.Kind, "tunnel") && cn.Kind != "trickle-up" {
@@ -214,6 +231,20 @@ func runC20(env *core.Env, ci any) {
 		tok := fmt.Sprintf("tk%dz", i+1)
 		serve(env, "origin", fmt.Sprintf("%s:%d", ipTarget, 7000+i), func(conn *simnet.Conn) {
 			defer conn.Close()
+			if cn.Kind == "tunnel-duplex" {
+				wrote := make(chan struct{})
+				defer func() { <-wrote; close(dupDone[i]) }() // (runs before conn.Close)
+				go func() {
+					defer close(wrote)
+					for off := 0; off < cn.Bytes; off += 64 << 10 {
+						k := minInt(64<<10, cn.Bytes-off)
+						if _, err := conn.Write(streamBytes(tokenSeed(tok)^1, off, k)); err != nil {
+							return
+						}
+					}
+					conn.CloseWrite()
+				}()
+			}
 			if cn.Kind == "tunnel-down" {
 				for off := 0; off < cn.Bytes; off += 64 << 10 {
 					k := minInt(64<<10, cn.Bytes-off)
@@ -273,7 +304,7 @@ func runC20(env *core.Env, ci any) {
 	var phase1 sync.WaitGroup
 	phase1Done := make(chan struct{})
 	for _, cn := range c.Conns {
-		if twoPhases && cn.Kind != "trickle-up" && isUp(cn.Kind) == firstPhaseUp {
+		if twoPhases && cn.Kind != "trickle-up" && cn.Kind != "tunnel-duplex" && isUp(cn.Kind) == firstPhaseUp {
 			phase1.Add(1)
 		}
 	}
@@ -342,7 +373,7 @@ func runC20(env *core.Env, ci any) {
 				env.Probe("swarm_of_short_connections")
 				return
 			}
-			if twoPhases && cn.Kind != "trickle-up" {
+			if twoPhases && cn.Kind != "trickle-up" && cn.Kind != "tunnel-duplex" {
 				if isUp(cn.Kind) == firstPhaseUp {
 					defer phase1.Done()
 				} else {
@@ -437,11 +468,29 @@ func runC20(env *core.Env, ci any) {
 					}
 					time.Sleep(time.Duration(cn.Bytes) * time.Millisecond)
 				}
-			case "tunnel-down", "tunnel-up":
+			case "tunnel-down", "tunnel-up", "tunnel-duplex":
 				fmt.Fprintf(conn, "CONNECT %s:%d HTTP/1.1\r\nHost: %s:%d\r\n\r\n", ipTarget, 7000+i, ipTarget, 7000+i)
 				m, err := h1.ReadResponse(br, "CONNECT")
 				if err != nil || m.Status != 200 {
 					fails[i] = fmt.Sprintf("CONNECT: %v", err)
+					return
+				}
+				if cn.Kind == "tunnel-duplex" {
+					wdone := make(chan struct{})
+					go func() {
+						defer close(wdone)
+						for off := 0; off < cn.Bytes; off += 64 << 10 {
+							k := minInt(64<<10, cn.Bytes-off)
+							if _, err := conn.Write(streamBytes(tokenSeed(tok), off, k)); err != nil {
+								return
+							}
+						}
+						conn.CloseWrite()
+					}()
+					readCounted(cn.Bytes, tokenSeed(tok)^1)
+					<-wdone
+					<-dupDone[i]
+					env.Probe("tunnel_both_directions_busy")
 					return
 				}
 				if cn.Kind == "tunnel-down" {
@@ -482,7 +531,7 @@ func runC20(env *core.Env, ci any) {
 	}
 	var wantUp int64
 	for _, cn := range c.Conns {
-		if cn.Kind == "upload" || cn.Kind == "tunnel-up" {
+		if cn.Kind == "upload" || cn.Kind == "tunnel-up" || cn.Kind == "tunnel-duplex" {
 			wantUp += int64(cn.Bytes)
 		}
 		_ = cn
